@@ -32,6 +32,7 @@ Proof. exact success_then_unchanged. Qed.
 Theorem C03_persist_then_unchanged : forall body c c' E dyn dyn' desel w t f f',
   skipflag t dyn desel = false -> existsb (fun b => b) (m_skipif t) = false ->
   has_dyn MAncFailed (tid t) dyn = false ->
+  has_dyn MWould (tid t) dyn = false ->
   m_persist t = true -> all_exist E w t = true -> any_changed E w t = true ->
   dry_run c = false ->
   force c' = false -> skipflag t dyn' desel = false ->
